@@ -212,6 +212,9 @@ func cmdCheck(args []string) int {
 				rep.Unsupported[h.Name+": "+p.Detail]++
 			case "blocked":
 				rep.Blocked[h.Name+": "+p.Detail]++
+				// the harness body itself can never continue (every call it makes is one the
+				// property says returns): a deadlock of the code under test
+				p.Violations = append(p.Violations, Violation{Key: "assert:E:deadlock: the harness blocks forever in " + firstLine(p.Detail), Detail: "no thread can run and the harness body is blocked: " + p.Detail})
 			case "budget", "cut":
 				rep.Cuts[h.Name+": "+p.Detail]++
 			case "engine-error":
